@@ -244,6 +244,7 @@ def _work(item):
                 F.detour(H)
                 F.morph(H)
                 k = len(out)
+                check_layouts(H, out, stats)
                 check_drawing(H, out, stats, "quick")
                 out[k:] = [(m, "[same object after remove+re-add of its first node and edge] " + msg) for m, msg in out[k:]]
         except RecursionError:
